@@ -63,6 +63,8 @@ DecodeVerdict(ev) ==
   IN IF ev.panic # "" THEN "panic:Decode panicked on '" \o ev.op.s \o "'"
      ELSE IF x.nil = ev.ok THEN "fabricated:Decode of '" \o ev.op.s \o "' returned " \o (IF ev.ok THEN "neither object nor error" ELSE "both an object and an error")
      ELSE IF ev.ok # acc THEN "accept:" \o r.fam \o r.lvl \o " decoder " \o (IF ev.ok THEN "accepted" ELSE "rejected") \o " '" \o ev.op.s \o "'"
+     ELSE IF ev.ok /\ SnapOk(x) /\ Invalid(ObjOf(x))
+          THEN "fabricated:Decode of '" \o ev.op.s \o "' returned no error and an object that is not usable (fields " \o x.f \o ", version " \o x.ver \o ")"
      ELSE IF ev.ok /\ SnapOk(x) /\ (ObjOf(x).f # Decoded(r.fam, r.lvl, ev.op.s).f \/ ObjOf(x).ver # Decoded(r.fam, r.lvl, ev.op.s).ver)
           THEN "drift:decoded state of '" \o ev.op.s \o "'"
      ELSE "ok"
@@ -74,6 +76,9 @@ Decode2Verdict(ev) ==
       y == ev.snaps["y"]
   IN IF ev.panic # "" THEN "panic:Decode into a used receiver panicked on '" \o ev.op.s \o "'"
      ELSE IF y.nil = ev.ok THEN "fabricated:Decode of '" \o ev.op.s \o "' into a used receiver returned " \o (IF ev.ok THEN "neither object nor error" ELSE "both an object and an error")
+     \* "a usable object and no error": whatever the receiver went through, an object returned without an error is valid
+     ELSE IF ev.ok /\ SnapOk(y) /\ Invalid(ObjOf(y))
+          THEN "fabricated:Decode of '" \o ev.op.s \o "' into a used receiver returned no error and an object that is not usable (fields " \o y.f \o ", version " \o y.ver \o ")"
      ELSE IF r.nil \/ ~SnapOk(r) THEN "ok"
      ELSE LET o == ObjOf(r)
               m == DecodeFrom(r.fam, r.lvl, [names |-> o.names, f |-> o.f], o.ver, ev.op.s)
@@ -105,10 +110,18 @@ OrderVerdict(ev) ==
   IF ev.a = ev.b /\ ev.b = ev.c THEN "ok"
   ELSE "history:decoding '" \o ev.s \o "' with the " \o ev.fam \o ev.lvl \o " decoder gives different results depending on what was processed before"
 
+\* one history run again with queries injected before every state-changing operation (also on the receiver
+\* before its first Decode): Query leaves the state UNCHANGED in Objects, so decode outcomes, final snapshots and
+\* the results of the closing battery are those of the run without the injected queries
+InjectVerdict(ev) ==
+  IF ev.same THEN "ok"
+  ELSE "history:queries asked between the operations of a history change a later result: without them '" \o ev.a \o "', with them '" \o ev.b \o "'"
+
 Init == LoadTrace /\ TraceInit /\ prev = <<>> /\ ptab = "" /\ cur = -1
 StepO == /\ l <= Len(Trace)
          /\ LET ev == Trace[l]
                 v0 == IF ev.k = "order" THEN OrderVerdict(ev)
+                      ELSE IF ev.k = "inject" THEN InjectVerdict(ev)
                       ELSE IF ev.k # "step" THEN "harness:unknown event"
                       ELSE IF ev.i > 0 /\ ev.h # cur THEN "harness:history interleaved"
                       ELSE StepVerdict(ev)
